@@ -157,6 +157,7 @@ def explore(size, workers, budget_s, scratch, max_states=None):
     st, intf = make_state(size, workers)
     rig = R.Rig(scratch, [LockMonitor(), StallMonitor(), ProbMonitor()])
     rig.state = st
+    rig.no_restart_file = True   # write_toml is a stand-in in this driver
     R.Rig.current = rig
     rig.hook("on_state", st)
     P = size - 1
